@@ -110,7 +110,7 @@ func (fc *fnCtx) staticCall(cs *callSite, callee *ssa.Function, bindings []*val)
 	if r, ok := fc.intrinsic(cs, callee, name); ok {
 		return r
 	}
-	if strings.HasPrefix(callee.Name(), "spec_") {
+	if isSpecName(callee.Name()) {
 		return fc.pureCall(callee, cs.args, fc.curH, fc.curR)
 	}
 	if g.lite {
@@ -1050,7 +1050,7 @@ func specRecursive(fn *ssa.Function) bool {
 						if callee == fn {
 							return true
 						}
-						if strings.HasPrefix(callee.Name(), "spec_") && visit(callee) {
+						if isSpecName(callee.Name()) && visit(callee) {
 							return true
 						}
 					}
@@ -1097,18 +1097,39 @@ func (fc *fnCtx) specBody(fn *ssa.Function, args []*val, h heap) *val {
 
 func (fc *fnCtx) pureCall(fn *ssa.Function, args []*val, h heap, guard string) *val {
 	g := fc.g
-	if strings.HasPrefix(fn.Name(), "spec_") && fn.Blocks != nil && !g.lite && guard != "#skip" && g.inQuant == 0 && len(g.specStack) < 6 && !g.specStack[fn] {
+	if isGhostName(fn.Name()) {
+		return fc.ghostCall(fn, args)
+	}
+	if isSpecName(fn.Name()) && fn.Blocks != nil && !g.lite && guard != "#skip" && g.inQuant == 0 && len(g.specStack) < 6 && !g.specStack[fn] {
 		if rec, ok := g.w.specRec[fn]; !ok {
 			g.w.specRec[fn] = specRecursive(fn)
 			rec = g.w.specRec[fn]
 			_ = rec
 		}
 		if !g.w.specRec[fn] {
-			// non-recursive spec functions are macros
+			// non-recursive spec functions are macros; identical expansions (same arguments, same heap) are shared
+			var kb strings.Builder
+			kb.WriteString(fn.String())
+			for _, a := range args {
+				kb.WriteByte('|')
+				kb.WriteString(valKey(a))
+			}
+			for _, hk := range g.heapKinds() {
+				kb.WriteByte('|')
+				kb.WriteString(h[hk.name])
+			}
+			key := kb.String()
+			if v, ok := g.macroMemo[key]; ok {
+				return v
+			}
 			g.specStack[fn] = true
 			body := fc.specBody(fn, args, h)
 			delete(g.specStack, fn)
 			if body != nil {
+				if g.macroMemo == nil {
+					g.macroMemo = map[string]*val{}
+				}
+				g.macroMemo[key] = body
 				return body
 			}
 		}
@@ -1223,7 +1244,7 @@ func (fc *fnCtx) pureCall(fn *ssa.Function, args []*val, h heap, guard string) *
 		out = &val{k: kTuple, elems: outs}
 	}
 	// one-step unfolding of spec functions at this term
-	if strings.HasPrefix(fn.Name(), "spec_") && fn.Blocks != nil && !g.specStack[fn] && len(g.specStack) < 3 && !g.lite && guard != "#skip" {
+	if isSpecName(fn.Name()) && fn.Blocks != nil && !g.specStack[fn] && len(g.specStack) < 3 && !g.lite && guard != "#skip" {
 		key := base + "(" + strings.Join(terms, " ") + ")"
 		if !g.specDefs[key] {
 			g.specDefs[key] = true
@@ -1288,4 +1309,71 @@ func kindsOf(t types.Type) []string {
 		}
 	}
 	return out
+}
+
+// isSpecName: spec functions (pure Go functions of the contract files) are named spec_* / Spec_* (exported, usable
+// from other packages); ghost functions ghost_* / Ghost_* are uninterpreted functions of the IDENTITY of their
+// reference arguments (never unfolded, independent of heap contents).
+func isSpecName(n string) bool {
+	return strings.HasPrefix(n, "spec_") || strings.HasPrefix(n, "Spec_") || isGhostName(n)
+}
+
+func isGhostName(n string) bool { return strings.HasPrefix(n, "ghost_") || strings.HasPrefix(n, "Ghost_") }
+
+// ghostCall: uninterpreted function over the identities of its arguments.
+func (fc *fnCtx) ghostCall(fn *ssa.Function, args []*val) *val {
+	g := fc.g
+	var sorts, terms []string
+	for _, a := range args {
+		switch a.k {
+		case kInt, kArr, kFloat:
+			sorts = append(sorts, fmt.Sprintf("(_ BitVec %d)", maxi(a.w, 1)))
+			terms = append(terms, a.t[0])
+		case kBool:
+			sorts = append(sorts, "Bool")
+			terms = append(terms, a.t[0])
+		case kPtr:
+			sorts = append(sorts, "Int", "(_ BitVec 64)")
+			terms = append(terms, a.t[0], a.t[1])
+		case kIface:
+			sorts = append(sorts, "Int", "(_ BitVec 64)")
+			terms = append(terms, a.t[1], a.t[2])
+		case kSlice:
+			sorts = append(sorts, "Int", "(_ BitVec 64)", "(_ BitVec 64)")
+			terms = append(terms, a.t[0], a.t[1], a.t[2])
+		case kOpaque:
+			sorts = append(sorts, "Int")
+			terms = append(terms, a.t[0])
+		}
+	}
+	res := fn.Signature.Results()
+	if res.Len() != 1 {
+		return g.newVal("ghost", res)
+	}
+	srt, k, w, ok := resultSort(res.At(0).Type())
+	if !ok {
+		return g.newVal("ghost", res.At(0).Type())
+	}
+	name := "gh_" + sanitizeSym(fnKeyQ(fn))
+	g.declFun(name, "("+strings.Join(sorts, " ")+") "+srt)
+	t := name
+	if len(terms) > 0 {
+		t = "(" + name + " " + strings.Join(terms, " ") + ")"
+	}
+	_, sg, _ := intW(res.At(0).Type())
+	return &val{k: k, w: w, signed: sg, ty: res.At(0).Type(), t: []string{t}}
+}
+
+func valKey(v *val) string {
+	if v == nil {
+		return "nil"
+	}
+	if len(v.elems) > 0 {
+		var ps []string
+		for _, e := range v.elems {
+			ps = append(ps, valKey(e))
+		}
+		return "{" + strings.Join(ps, ",") + "}"
+	}
+	return strings.Join(v.t, ",")
 }
